@@ -2,6 +2,7 @@ package main
 
 import (
 	"fmt"
+	"os"
 	"strings"
 	"time"
 
@@ -435,6 +436,16 @@ func jobSyncMonitor(res *Result, m *mJob, cfg jsCfg, ops []jsOp, obs []jsObs, js
 	}
 	// end state (the generator drives every history to quiescence)
 	last := obs[len(obs)-1]
+	if os.Getenv("VERIF_DEBUG_JS") != "" {
+		if j := last.Job; j != nil {
+			fmt.Fprintf(os.Stderr, "DEBUG end: phase=%s kill=%v start=%v now=%d npods=%d\n", j.Status.Phase, j.Spec.KillTimestamp, j.Status.StartTime, last.Now, len(last.Pods))
+			for _, p := range last.Pods {
+				fmt.Fprintf(os.Stderr, "   pod %s phase=%s del=%v controlled=%v\n", p.Name, p.Status.Phase, p.DeletionTimestamp, podControlled(p))
+			}
+		} else {
+			fmt.Fprintf(os.Stderr, "DEBUG end: job gone\n")
+		}
+	}
 	if j := last.Job; j != nil {
 		listed := map[string]bool{}
 		for _, r := range j.Status.Tasks {
